@@ -630,6 +630,9 @@ func (c *Ctx) term(v ssa.Value) *Term {
 	case *ssa.Field:
 		st := x.X.Type().Underlying().(*types.Struct)
 		f := st.Field(x.Field)
+		if pv := c.planValue(x); pv != nil {
+			return projectField(pv, x.Field, f)
+		}
 		base := c.Term(x.X)
 		return projectField(base, x.Field, f)
 	case *ssa.IndexAddr:
@@ -639,6 +642,16 @@ func (c *Ctx) term(v ssa.Value) *Term {
 	case *ssa.Lookup:
 		return &Term{Kind: "lookup", Args: []*Term{c.Term(x.X), c.Term(x.Index)}}
 	case *ssa.Extract:
+		// the structure half of `plan, err := h(…)` spilled into a local and read only behind err == nil
+		if x.Index == 0 {
+			if _, isStruct := x.Type().Underlying().(*types.Struct); isStruct {
+				if uses, ok := planUses(x); ok {
+					if pv := c.planValueOf(x, uses); pv != nil {
+						return pv
+					}
+				}
+			}
+		}
 		tup := c.Term(x.Tuple)
 		if tup.Kind == "tuple" && x.Index < len(tup.Args) {
 			return tup.Args[x.Index]
@@ -1570,6 +1583,149 @@ func (c *Ctx) callTerm(call *ssa.Call) *Term {
 	return &Term{Kind: "call", Name: "(" + fv.String() + ")", Fn: fv.Fn, Args: args, ID: c.instrID(call), Typ: call.Type(), Val: call}
 }
 
+// planValue: fld reads a field of `plan, err := h(…)` — h a loop-free repo helper with results
+// (structure, error) exactly one return of which has a nil error, all others a freshly built one —
+// at a point dominated by the `err == nil` edge of a test of that very error: the structure is the
+// one that return builds, read with h's parameters bound at the call (the decide half of a
+// decide / apply split).
+func (c *Ctx) planValue(fld *ssa.Field) *Term {
+	ex, ok := fld.X.(*ssa.Extract)
+	if !ok || ex.Index != 0 {
+		return nil
+	}
+	return c.planValueOf(ex, []*ssa.BasicBlock{fld.Block()})
+}
+
+// planUses: the blocks in which the structure ex (result 0 of a call) is read when it was spilled
+// into a local: every load through the local or one of its field addresses. ok is false when the
+// local escapes or is written from elsewhere.
+func planUses(ex *ssa.Extract) ([]*ssa.BasicBlock, bool) {
+	var al *ssa.Alloc
+	for _, r := range *ex.Referrers() {
+		switch y := r.(type) {
+		case *ssa.DebugRef:
+		case *ssa.Store:
+			a, ok := y.Addr.(*ssa.Alloc)
+			if !ok || y.Val != ssa.Value(ex) || al != nil {
+				return nil, false
+			}
+			al = a
+		case *ssa.Field:
+		default:
+			return nil, false
+		}
+	}
+	if al == nil {
+		return nil, false
+	}
+	var blocks []*ssa.BasicBlock
+	for _, r := range *al.Referrers() {
+		switch y := r.(type) {
+		case *ssa.DebugRef:
+		case *ssa.Store:
+			if y.Val != ssa.Value(ex) {
+				return nil, false
+			}
+		case *ssa.UnOp:
+			blocks = append(blocks, y.Block())
+		case *ssa.FieldAddr:
+			for _, rr := range *y.Referrers() {
+				switch z := rr.(type) {
+				case *ssa.DebugRef:
+				case *ssa.UnOp:
+					blocks = append(blocks, z.Block())
+				default:
+					return nil, false
+				}
+			}
+		default:
+			return nil, false
+		}
+	}
+	return blocks, true
+}
+
+func (c *Ctx) planValueOf(ex *ssa.Extract, uses []*ssa.BasicBlock) *Term {
+	call, ok := ex.Tuple.(*ssa.Call)
+	if !ok || c.depth >= c.maxD {
+		return nil
+	}
+	h := call.Common().StaticCallee()
+	if h == nil || !c.p.inRepo(h) || h.Blocks == nil || h == c.fn || infoOf(h).hasLoop || h.Signature.Results().Len() != 2 || !isErrorType(h.Signature.Results().At(1).Type()) {
+		return nil
+	}
+	if c.p.keepCalls != nil && c.p.keepCalls[h] {
+		return nil
+	}
+	// the use sits behind err == nil
+	guarded := false
+	for _, r := range *call.Referrers() {
+		e1, ok := r.(*ssa.Extract)
+		if !ok || e1.Index != 1 {
+			continue
+		}
+		for _, rr := range *e1.Referrers() {
+			bo, ok := rr.(*ssa.BinOp)
+			if !ok || (bo.Op != token.NEQ && bo.Op != token.EQL) {
+				continue
+			}
+			for _, r3 := range *bo.Referrers() {
+				iff, ok := r3.(*ssa.If)
+				if !ok {
+					continue
+				}
+				okEdge := iff.Block().Succs[1]
+				if bo.Op == token.EQL {
+					okEdge = iff.Block().Succs[0]
+				}
+				if len(okEdge.Preds) == 1 {
+					all := len(uses) > 0
+					for _, ub := range uses {
+						if !okEdge.Dominates(ub) {
+							all = false
+						}
+					}
+					if all {
+						guarded = true
+					}
+				}
+			}
+		}
+	}
+	if !guarded {
+		return nil
+	}
+	var good *ssa.Return
+	for _, b := range h.Blocks {
+		r, ok := b.Instrs[len(b.Instrs)-1].(*ssa.Return)
+		if !ok || len(r.Results) != 2 {
+			continue
+		}
+		if k, isC := r.Results[1].(*ssa.Const); isC && k.IsNil() {
+			if good != nil {
+				return nil
+			}
+			good = r
+			continue
+		}
+		if !errorConstructor(r.Results[1]) {
+			return nil
+		}
+	}
+	if good == nil {
+		return nil
+	}
+	args := make([]*Term, len(call.Common().Args))
+	for i, a := range call.Common().Args {
+		args[i] = c.Term(a)
+	}
+	t := c.child(h, call, args).Term(good.Results[0])
+	if t.Kind != "struct" {
+		return nil
+	}
+	return t
+}
+
 func lenOf(kind string, x *Term) *Term {
 	return &Term{Kind: kind, Args: []*Term{x}}
 }
@@ -1700,6 +1856,29 @@ func (c *Ctx) formula(v ssa.Value) *Formula {
 							return FTrue
 						}
 						return FFalse
+					}
+				}
+				// an injection seam nothing fills: a function-typed field of a repo structure that no
+				// shipped code stores to (composite literals included) is nil
+				if other != nil {
+					if _, isSig := other.Type().Underlying().(*types.Signature); isSig {
+						var fld *types.Var
+						switch y := other.(type) {
+						case *ssa.UnOp:
+							if y.Op == token.MUL {
+								fld = fieldOfAddr(y.X)
+							}
+						case *ssa.Field:
+							if st, ok := y.X.Type().Underlying().(*types.Struct); ok {
+								fld = st.Field(y.Field)
+							}
+						}
+						if fld != nil && c.p.neverStoredFuncField(fld) {
+							if x.Op == token.NEQ {
+								return FFalse
+							}
+							return FTrue
+						}
 					}
 				}
 				// only for error values: pointer-typed optional results keep their atoms, which the
@@ -1936,6 +2115,10 @@ func (t *Term) formula() *Formula { return boolfStore[t.Name] }
 func cmpFormula(op token.Token, a, b *Term) *Formula {
 	lt := func(x, y *Term) *Formula { return Atom(&Term{Kind: "cmp", Name: "<", Args: []*Term{x, y}}) }
 	eq := func(x, y *Term) *Formula {
+		// nil compared with nil (a nil field of a zero structure bound into a helper's frame)
+		if x.Kind == "const" && y.Kind == "const" && x.Name == "nil" && y.Name == "nil" {
+			return FTrue
+		}
 		if x.Key() > y.Key() {
 			x, y = y, x
 		}
